@@ -1,3 +1,504 @@
-import PharmpyModel.C18.Search
+import PharmpyModel.C18.Spec
+/-
+  Helper lemmas for C18: set partitions (`partsRev`), combinations.
+-/
 namespace Pharmpy.C18
+
+variable {α : Type}
+
+/-! ### `Rel` -/
+
+theorem rel_nil (a b : α) : ¬ Rel ([] : List (List α)) a b := by
+  rintro ⟨p, hp, _⟩; cases hp
+
+theorem rel_cons (p : List α) (P : List (List α)) (a b : α) :
+    Rel (p :: P) a b ↔ (a ∈ p ∧ b ∈ p) ∨ Rel P a b := by
+  constructor
+  · rintro ⟨q, hq, ha, hb⟩
+    rcases List.mem_cons.mp hq with rfl | hq
+    · exact Or.inl ⟨ha, hb⟩
+    · exact Or.inr ⟨q, hq, ha, hb⟩
+  · rintro (⟨ha, hb⟩ | ⟨q, hq, ha, hb⟩)
+    · exact ⟨p, List.mem_cons_self, ha, hb⟩
+    · exact ⟨q, List.mem_cons_of_mem _ hq, ha, hb⟩
+
+theorem rel_append (P Q : List (List α)) (a b : α) :
+    Rel (P ++ Q) a b ↔ Rel P a b ∨ Rel Q a b := by
+  constructor
+  · rintro ⟨q, hq, ha, hb⟩
+    rcases List.mem_append.mp hq with h | h
+    · exact Or.inl ⟨q, h, ha, hb⟩
+    · exact Or.inr ⟨q, h, ha, hb⟩
+  · rintro (⟨q, hq, ha, hb⟩ | ⟨q, hq, ha, hb⟩)
+    · exact ⟨q, List.mem_append_left _ hq, ha, hb⟩
+    · exact ⟨q, List.mem_append_right _ hq, ha, hb⟩
+
+theorem rel_symm {P : List (List α)} {a b : α} (h : Rel P a b) : Rel P b a := by
+  rcases h with ⟨p, hp, ha, hb⟩; exact ⟨p, hp, hb, ha⟩
+
+theorem rel_mem_flatten_left {P : List (List α)} {a b : α} (h : Rel P a b) : a ∈ P.flatten := by
+  rcases h with ⟨p, hp, ha, _⟩; exact List.mem_flatten.mpr ⟨p, hp, ha⟩
+
+theorem rel_of_perm {P Q : List (List α)} (h : P.Perm Q) (a b : α) : Rel P a b ↔ Rel Q a b := by
+  constructor
+  · rintro ⟨p, hp, ha, hb⟩; exact ⟨p, h.mem_iff.mp hp, ha, hb⟩
+  · rintro ⟨p, hp, ha, hb⟩; exact ⟨p, h.mem_iff.mpr hp, ha, hb⟩
+
+/-! ### `insertEach`, `step` -/
+
+theorem insertEach_flatten (x : α) (P Q : List (List α)) (h : Q ∈ insertEach x P) :
+    Q.flatten.Perm (x :: P.flatten) := by
+  induction P generalizing Q with
+  | nil => simp [insertEach] at h
+  | cons b bs ih =>
+    simp only [insertEach, List.mem_cons, List.mem_map] at h
+    rcases h with rfl | ⟨Q', hQ', rfl⟩
+    · simp only [List.flatten_cons, List.append_assoc, List.singleton_append]
+      exact List.perm_middle
+    · have := ih Q' hQ'
+      simp only [List.flatten_cons]
+      exact (List.Perm.append_left b this).trans List.perm_middle
+
+theorem insertEach_nonempty (x : α) (P Q : List (List α)) (h : Q ∈ insertEach x P)
+    (hP : ∀ p, p ∈ P → p ≠ []) : ∀ q, q ∈ Q → q ≠ [] := by
+  induction P generalizing Q with
+  | nil => simp [insertEach] at h
+  | cons b bs ih =>
+    simp only [insertEach, List.mem_cons, List.mem_map] at h
+    rcases h with rfl | ⟨Q', hQ', rfl⟩
+    · intro q hq
+      rcases List.mem_cons.mp hq with rfl | hq
+      · simp
+      · exact hP q (List.mem_cons_of_mem _ hq)
+    · intro q hq
+      rcases List.mem_cons.mp hq with rfl | hq
+      · exact hP q List.mem_cons_self
+      · exact ih Q' hQ' (fun p hp => hP p (List.mem_cons_of_mem _ hp)) q hq
+
+theorem insertEach_length (x : α) (P : List (List α)) : (insertEach x P).length = P.length := by
+  induction P with
+  | nil => rfl
+  | cons b bs ih => simp [insertEach, ih]
+
+theorem insertEach_block_length (x : α) (P Q : List (List α)) (h : Q ∈ insertEach x P) :
+    Q.length = P.length := by
+  induction P generalizing Q with
+  | nil => simp [insertEach] at h
+  | cons b bs ih =>
+    simp only [insertEach, List.mem_cons, List.mem_map] at h
+    rcases h with rfl | ⟨Q', hQ', rfl⟩
+    · simp
+    · simp [ih Q' hQ']
+
+theorem step_isPartition (x : α) (r : List α) (P Q : List (List α)) (hP : IsPartition r P)
+    (h : Q ∈ step x P) : IsPartition (x :: r) Q := by
+  simp only [step, List.mem_cons] at h
+  rcases h with rfl | h
+  · constructor
+    · intro p hp
+      rcases List.mem_append.mp hp with hp | hp
+      · exact hP.1 p hp
+      · simp at hp; subst hp; simp
+    · simp only [List.flatten_append, List.flatten_cons, List.flatten_nil, List.append_nil]
+      exact (List.perm_append_comm).trans (List.Perm.cons x hP.2)
+  · exact ⟨insertEach_nonempty x P Q h hP.1, (insertEach_flatten x P Q h).trans (List.Perm.cons x hP.2)⟩
+
+theorem partsRev_isPartition (r : List α) : ∀ P, P ∈ partsRev r → IsPartition r P := by
+  induction r with
+  | nil =>
+    intro P hP
+    simp [partsRev] at hP
+    subst hP
+    exact ⟨by simp, by simp⟩
+  | cons x r ih =>
+    intro Q hQ
+    simp only [partsRev, List.mem_flatMap] at hQ
+    rcases hQ with ⟨P, hP, hQ⟩
+    exact step_isPartition x r P Q (ih P hP) hQ
+
+/-- Relation of a child restricted to the old elements is the relation of the parent. -/
+theorem insertEach_rel_old (x : α) (P Q : List (List α)) (h : Q ∈ insertEach x P)
+    (a b : α) (ha : a ≠ x) (hb : b ≠ x) : Rel Q a b ↔ Rel P a b := by
+  induction P generalizing Q with
+  | nil => simp [insertEach] at h
+  | cons p ps ih =>
+    simp only [insertEach, List.mem_cons, List.mem_map] at h
+    rcases h with rfl | ⟨Q', hQ', rfl⟩
+    · simp only [rel_cons, List.mem_append, List.mem_singleton]
+      constructor
+      · rintro (⟨h1, h2⟩ | h)
+        · exact Or.inl ⟨h1.resolve_right ha, h2.resolve_right hb⟩
+        · exact Or.inr h
+      · rintro (⟨h1, h2⟩ | h)
+        · exact Or.inl ⟨Or.inl h1, Or.inl h2⟩
+        · exact Or.inr h
+    · simp only [rel_cons, ih Q' hQ']
+
+theorem step_rel_old (x : α) (P Q : List (List α)) (h : Q ∈ step x P)
+    (a b : α) (ha : a ≠ x) (hb : b ≠ x) : Rel Q a b ↔ Rel P a b := by
+  simp only [step, List.mem_cons] at h
+  rcases h with rfl | h
+  · simp only [rel_append, rel_cons, List.mem_singleton]
+    constructor
+    · rintro (h | ⟨h1, _⟩ | h)
+      · exact h
+      · exact absurd h1 ha
+      · exact absurd h (rel_nil _ _)
+    · intro h; exact Or.inl h
+  · exact insertEach_rel_old x P Q h a b ha hb
+
+/-- In the child that opens a new block, `x` is related to nothing else. -/
+theorem newBlock_rel_x (x : α) (P : List (List α)) (hx : x ∉ P.flatten) (b : α) (hb : b ≠ x) :
+    ¬ Rel (P ++ [[x]]) x b := by
+  simp only [rel_append, rel_cons, List.mem_singleton]
+  rintro (h | ⟨_, h⟩ | h)
+  · exact hx (rel_mem_flatten_left h)
+  · exact hb h
+  · exact rel_nil _ _ h
+
+/-- Elements of the blocks of a child. -/
+theorem insertEach_mem_block (x : α) (P Q : List (List α)) (h : Q ∈ insertEach x P)
+    (q : List α) (hq : q ∈ Q) (c : α) (hc : c ∈ q) : c = x ∨ c ∈ P.flatten := by
+  have hperm := insertEach_flatten x P Q h
+  have : c ∈ Q.flatten := List.mem_flatten.mpr ⟨q, hq, hc⟩
+  have := hperm.mem_iff.mp this
+  simpa using this
+
+/-- In a child obtained by adding `x` to a block, `x` is related to some old element. -/
+theorem insertEach_rel_x_exists (x : α) (P Q : List (List α)) (h : Q ∈ insertEach x P)
+    (hP : ∀ p, p ∈ P → p ≠ []) (hx : x ∉ P.flatten) :
+    ∃ c, c ≠ x ∧ c ∈ P.flatten ∧ Rel Q x c := by
+  induction P generalizing Q with
+  | nil => simp [insertEach] at h
+  | cons p ps ih =>
+    simp only [insertEach, List.mem_cons, List.mem_map] at h
+    rcases h with rfl | ⟨Q', hQ', rfl⟩
+    · have hne := hP p List.mem_cons_self
+      obtain ⟨c, hc⟩ := List.exists_mem_of_ne_nil p hne
+      refine ⟨c, ?_, ?_, ?_⟩
+      · rintro rfl; exact hx (by simp [hc])
+      · simp [hc]
+      · exact ⟨p ++ [x], List.mem_cons_self, by simp, by simp [hc]⟩
+    · have hx' : x ∉ ps.flatten := by
+        intro h'; exact hx (by simp [h'])
+      obtain ⟨c, hc1, hc2, hc3⟩ := ih Q' hQ' (fun q hq => hP q (List.mem_cons_of_mem _ hq)) hx'
+      refine ⟨c, hc1, by simp [hc2], ?_⟩
+      rw [rel_cons]; exact Or.inr hc3
+
+/-- Distinct children of one parent (obtained by adding `x` to different blocks) differ
+    on a pair `(x, c)`. -/
+theorem insertEach_pairwise (x : α) (P : List (List α)) (hP : ∀ p, p ∈ P → p ≠ [])
+    (hnd : (x :: P.flatten).Nodup) :
+    (insertEach x P).Pairwise
+      (fun Q1 Q2 => ∃ c, c ≠ x ∧ c ∈ P.flatten ∧ ¬ (Rel Q1 x c ↔ Rel Q2 x c)) := by
+  induction P with
+  | nil => simp [insertEach]
+  | cons p ps ih =>
+    have hx : x ∉ (p :: ps).flatten := (List.nodup_cons.mp hnd).1
+    have hxp : x ∉ p := by intro h; exact hx (by simp [h])
+    have hxps : x ∉ ps.flatten := by intro h; exact hx (by simp [h])
+    have hnd2 : (p ++ ps.flatten).Nodup := by simpa using (List.nodup_cons.mp hnd).2
+    have hdisj : ∀ c, c ∈ p → c ∉ ps.flatten := by
+      intro c hc hc'
+      exact (List.nodup_append.mp hnd2).2.2 c hc c hc' rfl
+    simp only [insertEach, List.pairwise_cons, List.mem_map, List.pairwise_map]
+    constructor
+    · rintro Q ⟨Q', hQ', rfl⟩
+      obtain ⟨c, hc⟩ := List.exists_mem_of_ne_nil p (hP p List.mem_cons_self)
+      have hcx : c ≠ x := by rintro rfl; exact hxp hc
+      refine ⟨c, hcx, by simp [hc], ?_⟩
+      intro hiff
+      have h1 : Rel ((p ++ [x]) :: ps) x c := ⟨p ++ [x], List.mem_cons_self, by simp, by simp [hc]⟩
+      have h2 := hiff.mp h1
+      rw [rel_cons] at h2
+      rcases h2 with ⟨h2, _⟩ | ⟨q, hq, _, hcq⟩
+      · exact hxp h2
+      · rcases insertEach_mem_block x ps Q' hQ' q hq c hcq with h | h
+        · exact hcx h
+        · exact hdisj c hc h
+    · have hnd' : (x :: ps.flatten).Nodup := by
+        refine List.nodup_cons.mpr ⟨hxps, (List.nodup_append.mp hnd2).2.1⟩
+      refine (ih (fun q hq => hP q (List.mem_cons_of_mem _ hq)) hnd').imp ?_
+      rintro Q1 Q2 ⟨c, hc1, hc2, hc3⟩
+      refine ⟨c, hc1, by simp [hc2], ?_⟩
+      simp only [rel_cons]
+      intro hiff
+      apply hc3
+      constructor
+      · intro h
+        rcases hiff.mp (Or.inr h) with ⟨h', _⟩ | h'
+        · exact absurd h' hxp
+        · exact h'
+      · intro h
+        rcases hiff.mpr (Or.inr h) with ⟨h', _⟩ | h'
+        · exact absurd h' hxp
+        · exact h'
+
+/-- The children of one parent are pairwise different partitions. -/
+theorem step_pairwise (x : α) (r : List α) (P : List (List α)) (hP : IsPartition r P)
+    (hnd : (x :: r).Nodup) : (step x P).Pairwise (Differ (x :: r)) := by
+  have hx : x ∉ P.flatten := by
+    intro h; exact (List.nodup_cons.mp hnd).1 (hP.2.mem_iff.mp h)
+  have hnd' : (x :: P.flatten).Nodup :=
+    List.nodup_cons.mpr ⟨hx, (hP.2.nodup_iff).mpr (List.nodup_cons.mp hnd).2⟩
+  simp only [step, List.pairwise_cons]
+  constructor
+  · intro Q hQ
+    obtain ⟨c, hc1, hc2, hc3⟩ := insertEach_rel_x_exists x P Q hQ hP.1 hx
+    refine ⟨x, List.mem_cons_self, c, List.mem_cons_of_mem _ (hP.2.mem_iff.mp hc2), ?_⟩
+    intro hiff
+    exact newBlock_rel_x x P hx c hc1 (hiff.mpr hc3)
+  · refine (insertEach_pairwise x P hP.1 hnd').imp ?_
+    rintro Q1 Q2 ⟨c, _, hc2, hc3⟩
+    exact ⟨x, List.mem_cons_self, c, List.mem_cons_of_mem _ (hP.2.mem_iff.mp hc2), hc3⟩
+
+theorem partsRev_pairwise_differ (r : List α) (hnd : r.Nodup) :
+    (partsRev r).Pairwise (Differ r) := by
+  induction r with
+  | nil => simp [partsRev]
+  | cons x r ih =>
+    have hx : x ∉ r := (List.nodup_cons.mp hnd).1
+    simp only [partsRev, List.pairwise_flatMap]
+    constructor
+    · intro P hP
+      exact step_pairwise x r P (partsRev_isPartition r P hP) hnd
+    · refine (ih (List.nodup_cons.mp hnd).2).imp ?_
+      rintro P1 P2 ⟨a, ha, b, hb, hne⟩ Q1 hQ1 Q2 hQ2
+      have hax : a ≠ x := by rintro rfl; exact hx ha
+      have hbx : b ≠ x := by rintro rfl; exact hx hb
+      refine ⟨a, List.mem_cons_of_mem _ ha, b, List.mem_cons_of_mem _ hb, ?_⟩
+      rw [step_rel_old x P1 Q1 hQ1 a b hax hbx, step_rel_old x P2 Q2 hQ2 a b hax hbx]
+      exact hne
+
+/-! ### completeness -/
+
+theorem block_unique (P : List (List α)) (hnd : P.flatten.Nodup) (p q : List α) (hp : p ∈ P) (hq : q ∈ P)
+    (y : α) (hyp : y ∈ p) (hyq : y ∈ q) : p = q := by
+  induction P with
+  | nil => cases hp
+  | cons b bs ih =>
+    simp only [List.flatten_cons] at hnd
+    have hdisj := (List.nodup_append.mp hnd).2.2
+    rcases List.mem_cons.mp hp with rfl | hp' <;> rcases List.mem_cons.mp hq with rfl | hq'
+    · rfl
+    · exact absurd rfl (hdisj y hyp y (List.mem_flatten.mpr ⟨q, hq', hyq⟩))
+    · exact absurd rfl (hdisj y hyq y (List.mem_flatten.mpr ⟨p, hp', hyp⟩))
+    · exact ih (List.nodup_append.mp hnd).2.1 hp' hq'
+
+/-- For every block `p` of the parent there is a child in which `x` joins exactly `p`. -/
+theorem insertEach_choose (x : α) (P : List (List α)) (hx : x ∉ P.flatten) (p : List α) (hp : p ∈ P) :
+    ∃ Q, Q ∈ insertEach x P ∧ ∀ c, c ≠ x → (Rel Q x c ↔ c ∈ p) := by
+  induction P with
+  | nil => cases hp
+  | cons b bs ih =>
+    have hxb : x ∉ b := by intro h; exact hx (by simp [h])
+    have hxbs : x ∉ bs.flatten := by intro h; exact hx (by simp [h])
+    rcases List.mem_cons.mp hp with rfl | hp'
+    · refine ⟨(p ++ [x]) :: bs, by simp [insertEach], ?_⟩
+      intro c hc
+      rw [rel_cons]
+      constructor
+      · rintro (⟨_, h⟩ | h)
+        · simpa [hc] using h
+        · exact absurd (rel_mem_flatten_left h) hxbs
+      · intro h; exact Or.inl ⟨by simp, by simp [h]⟩
+    · obtain ⟨Q', hQ', hprop⟩ := ih hxbs hp'
+      refine ⟨b :: Q', by simp only [insertEach, List.mem_cons, List.mem_map]; exact Or.inr ⟨Q', hQ', rfl⟩, ?_⟩
+      intro c hc
+      rw [rel_cons, ← hprop c hc]
+      constructor
+      · rintro (⟨h, _⟩ | h)
+        · exact absurd h hxb
+        · exact h
+      · intro h; exact Or.inr h
+
+theorem rel_iff_of_parts (x : α) (r : List α) (Q : List (List α)) (R : α → α → Prop) (hR : Equivalence R)
+    (hxx : Rel Q x x) (hxb : ∀ b, b ∈ r → (Rel Q x b ↔ R x b))
+    (hold : ∀ a, a ∈ r → ∀ b, b ∈ r → (Rel Q a b ↔ R a b)) :
+    ∀ a, a ∈ x :: r → ∀ b, b ∈ x :: r → (Rel Q a b ↔ R a b) := by
+  intro a ha b hb
+  rcases List.mem_cons.mp ha with hax | ha' <;> rcases List.mem_cons.mp hb with hbx | hb'
+  · rw [hax, hbx]; exact ⟨fun _ => hR.refl _, fun _ => hxx⟩
+  · rw [hax]; exact hxb b hb'
+  · rw [hbx]
+    constructor
+    · intro h; exact hR.symm ((hxb a ha').mp (rel_symm h))
+    · intro h; exact rel_symm ((hxb a ha').mpr (hR.symm h))
+  · exact hold a ha' b hb'
+
+theorem partsRev_complete (r : List α) (hnd : r.Nodup) (R : α → α → Prop) (hR : Equivalence R) :
+    ∃ P, P ∈ partsRev r ∧ ∀ a, a ∈ r → ∀ b, b ∈ r → (Rel P a b ↔ R a b) := by
+  induction r with
+  | nil => exact ⟨[], by simp [partsRev], by intro a ha; cases ha⟩
+  | cons x r ih =>
+    have hxr : x ∉ r := (List.nodup_cons.mp hnd).1
+    obtain ⟨P, hP, hrel⟩ := ih (List.nodup_cons.mp hnd).2
+    have hpart := partsRev_isPartition r P hP
+    have hx : x ∉ P.flatten := fun h => hxr (hpart.2.mem_iff.mp h)
+    have hPnd : P.flatten.Nodup := hpart.2.nodup_iff.mpr (List.nodup_cons.mp hnd).2
+    by_cases hex : ∃ y, y ∈ r ∧ R x y
+    · obtain ⟨y, hy, hxy⟩ := hex
+      have hyx : y ≠ x := by rintro rfl; exact hxr hy
+      obtain ⟨p, hp, hyp⟩ := List.mem_flatten.mp (hpart.2.mem_iff.mpr hy)
+      obtain ⟨Q, hQ, hQx⟩ := insertEach_choose x P hx p hp
+      have hQstep : Q ∈ step x P := by simp [step, hQ]
+      have key : ∀ b, b ∈ r → (Rel Q x b ↔ R x b) := by
+        intro b hb
+        have hbx : b ≠ x := by rintro rfl; exact hxr hb
+        rw [hQx b hbx]
+        constructor
+        · intro hbp
+          have : Rel P y b := ⟨p, hp, hyp, hbp⟩
+          exact hR.trans hxy ((hrel y hy b hb).mp this)
+        · intro hxb
+          have : R y b := hR.trans (hR.symm hxy) hxb
+          obtain ⟨q, hq, hyq, hbq⟩ := (hrel y hy b hb).mpr this
+          have := block_unique P hPnd p q hp hq y hyp hyq
+          subst this; exact hbq
+      refine ⟨Q, by simp only [partsRev, List.mem_flatMap]; exact ⟨P, hP, hQstep⟩, ?_⟩
+      apply rel_iff_of_parts x r Q R hR
+      · obtain ⟨q, hq, h1, _⟩ := (hQx y hyx).mpr hyp
+        exact ⟨q, hq, h1, h1⟩
+      · exact key
+      · intro a ha' b hb'
+        have h1 : a ≠ x := by rintro rfl; exact hxr ha'
+        have h2 : b ≠ x := by rintro rfl; exact hxr hb'
+        rw [step_rel_old x P Q hQstep a b h1 h2]
+        exact hrel a ha' b hb'
+    · have hno : ∀ b, b ∈ r → ¬ R x b := fun b hb h => hex ⟨b, hb, h⟩
+      have hQstep : (P ++ [[x]]) ∈ step x P := by simp [step]
+      refine ⟨P ++ [[x]], by simp only [partsRev, List.mem_flatMap]; exact ⟨P, hP, hQstep⟩, ?_⟩
+      apply rel_iff_of_parts x r _ R hR
+      · exact ⟨[x], by simp, by simp, by simp⟩
+      · intro b hb'
+        have hbx : b ≠ x := by rintro rfl; exact hxr hb'
+        constructor
+        · intro h; exact absurd h (newBlock_rel_x x P hx b hbx)
+        · intro h; exact absurd h (hno b hb')
+      · intro a ha' b hb'
+        have h1 : a ≠ x := by rintro rfl; exact hxr ha'
+        have h2 : b ≠ x := by rintro rfl; exact hxr hb'
+        rw [step_rel_old x P _ hQstep a b h1 h2]
+        exact hrel a ha' b hb'
+
+/-! ### counting: Stirling numbers of the second kind and Bell numbers -/
+
+theorem step_count (x : α) (P : List (List α)) (k : Nat) :
+    (step x P).countP (fun Q => Q.length == k) =
+      (if P.length + 1 = k then 1 else 0) + (if P.length = k then P.length else 0) := by
+  have h1 : (insertEach x P).countP (fun Q => Q.length == k) = if P.length = k then P.length else 0 := by
+    by_cases hk : P.length = k
+    · rw [if_pos hk, List.countP_eq_length.mpr, insertEach_length]
+      intro Q hQ
+      simp [insertEach_block_length x P Q hQ, hk]
+    · rw [if_neg hk, List.countP_eq_zero]
+      intro Q hQ
+      simp [insertEach_block_length x P Q hQ, hk]
+  simp only [step, List.countP_cons, h1, List.length_append, List.length_singleton, beq_iff_eq]
+  omega
+
+theorem sum_map_add (L : List (List (List α))) (f g : List (List α) → Nat) :
+    (L.map (fun P => f P + g P)).sum = (L.map f).sum + (L.map g).sum := by
+  induction L with
+  | nil => rfl
+  | cons a L ih => simp only [List.map_cons, List.sum_cons, ih]; omega
+
+theorem sum_ite_const (L : List (List (List α))) (k c : Nat) :
+    (L.map (fun P => if P.length = k then c else 0)).sum = c * L.countP (fun P => P.length == k) := by
+  induction L with
+  | nil => simp
+  | cons a L ih =>
+    simp only [List.map_cons, List.sum_cons, ih, List.countP_cons, beq_iff_eq]
+    by_cases h : a.length = k <;> simp [h, Nat.mul_add]
+    omega
+
+theorem sum_ite_len (L : List (List (List α))) (k : Nat) :
+    (L.map (fun P => if P.length = k then P.length else 0)).sum = k * L.countP (fun P => P.length == k) := by
+  have : (fun (P : List (List α)) => if P.length = k then P.length else 0) = (fun P => if P.length = k then k else 0) := by
+    funext P; by_cases h : P.length = k <;> simp [h]
+  rw [this, sum_ite_const]
+
+theorem partsRev_count (r : List α) : ∀ k, (partsRev r).countP (fun P => P.length == k) = stirling2 r.length k := by
+  induction r with
+  | nil =>
+    intro k
+    cases k <;> simp [partsRev, stirling2]
+  | cons x r ih =>
+    intro k
+    simp only [partsRev, List.countP_flatMap, List.length_cons]
+    have : (List.countP (fun (Q : List (List α)) => Q.length == k) ∘ step x) =
+        (fun P => (if P.length + 1 = k then 1 else 0) + (if P.length = k then P.length else 0)) := by
+      funext P; exact step_count x P k
+    rw [this, sum_map_add, sum_ite_len]
+    cases k with
+    | zero =>
+      have hz : ∀ (L : List (List (List α))), (L.map (fun _ => 0)).sum = 0 := by
+        intro L; induction L with
+        | nil => rfl
+        | cons a L ih => simp [ih]
+      simp [stirling2, hz]
+    | succ k =>
+      have : (fun (P : List (List α)) => if P.length + 1 = k + 1 then 1 else 0) = (fun P => if P.length = k then 1 else 0) := by
+        funext P; by_cases h : P.length = k <;> simp [h]
+      rw [this, sum_ite_const, ih k, ih (k + 1)]
+      simp [stirling2]; omega
+
+theorem partsRev_block_count_le (r : List α) : ∀ P, P ∈ partsRev r → P.length ≤ r.length := by
+  induction r with
+  | nil => intro P hP; simp [partsRev] at hP; simp [hP]
+  | cons x r ih =>
+    intro Q hQ
+    simp only [partsRev, List.mem_flatMap] at hQ
+    obtain ⟨P, hP, hQ⟩ := hQ
+    have := ih P hP
+    simp only [step, List.mem_cons] at hQ
+    rcases hQ with rfl | hQ
+    · simp; omega
+    · rw [insertEach_block_length x P Q hQ]; simp; omega
+
+theorem sumTo_indicator (m n : Nat) (h : m ≤ n) : sumTo (fun j => if m = j then 1 else 0) n = 1 := by
+  induction n with
+  | zero => have : m = 0 := by omega
+            simp [sumTo, this]
+  | succ n ih =>
+    simp only [sumTo]
+    by_cases hm : m = n + 1
+    · subst hm
+      have : sumTo (fun j => if n + 1 = j then 1 else 0) n = 0 := by
+        have : ∀ k, k ≤ n → sumTo (fun j => if n + 1 = j then 1 else 0) k = 0 := by
+          intro k hk
+          induction k with
+          | zero => simp [sumTo]
+          | succ k ihk => simp only [sumTo]; rw [ihk (by omega)]; simp; omega
+        exact this n (Nat.le_refl n)
+      simp [this]
+    · rw [ih (by omega)]; simp [hm]
+
+theorem sumTo_add (f g : Nat → Nat) (n : Nat) : sumTo (fun j => f j + g j) n = sumTo f n + sumTo g n := by
+  induction n with
+  | zero => rfl
+  | succ n ih => simp only [sumTo, ih]; omega
+
+theorem length_eq_sumTo_count (L : List (List (List α))) (n : Nat) (h : ∀ P, P ∈ L → P.length ≤ n) :
+    L.length = sumTo (fun j => L.countP (fun P => P.length == j)) n := by
+  induction L with
+  | nil =>
+    have : ∀ k, sumTo (fun _ => 0) k = 0 := by
+      intro k; induction k with
+      | zero => rfl
+      | succ k ih => simp [sumTo, ih]
+    simp [this]
+  | cons a L ih =>
+    have h1 := ih (fun P hP => h P (List.mem_cons_of_mem _ hP))
+    have h2 := sumTo_indicator a.length n (h a List.mem_cons_self)
+    simp only [List.length_cons, List.countP_cons, beq_iff_eq]
+    rw [sumTo_add, ← h1, h2]
+
+theorem partsRev_length (r : List α) : (partsRev r).length = bell r.length := by
+  rw [length_eq_sumTo_count (partsRev r) r.length (partsRev_block_count_le r)]
+  unfold bell
+  congr 1
+  funext j
+  exact partsRev_count r j
+
 end Pharmpy.C18
